@@ -2,6 +2,7 @@ package rules
 
 import (
 	"fmt"
+	"go/types"
 	"go/token"
 	"sort"
 	"strings"
@@ -118,8 +119,23 @@ func stmtTextEnv(v ssa.Value, d int, env map[ssa.Value]ssa.Value) string {
 			return sb.String()
 		}
 	}
+	if b, ok := v.Type().Underlying().(*types.Basic); ok && b.Info()&types.IsString != 0 {
+		t := stmtSx.Of(v).String()
+		var sb strings.Builder
+		sb.WriteString("VAR_")
+		for _, r := range t {
+			if r >= 'a' && r <= 'z' || r >= 'A' && r <= 'Z' || r >= '0' && r <= '9' {
+				sb.WriteRune(r)
+			} else {
+				sb.WriteByte('_')
+			}
+		}
+		return sb.String()
+	}
 	return "?"
 }
+
+var stmtSx = core.NewSymx()
 
 // globalWriters: functions other than the package initialiser that store to g.
 func globalWriters(g *ssa.Global) []string {
@@ -180,7 +196,7 @@ func orderedStatements(fn *ssa.Function) []string {
 		}
 		for _, a := range cc.Args {
 			s := stmtText(a, 0)
-			if strings.Contains(strings.ToUpper(s), "ORDER BY") && strings.Contains(strings.ToUpper(s), "SELECT") && !seen[s] {
+			if strings.Contains(strings.ToUpper(s), "SELECT") && strings.Contains(strings.ToUpper(s), "FROM") && !seen[s] {
 				seen[s] = true
 				out = append(out, s)
 			}
@@ -205,7 +221,7 @@ func checkOrdered(c *core.Ctx, rule string, specs []orderedSpec) {
 		}
 		var stmts []string
 		for _, s := range orderedStatements(fn) {
-			if q := parseOrdered(s); q != nil && q.table == w.table {
+			if q := parseOrdered(s); q != nil && q.table == w.table && (len(q.keys) > 0) == (w.keys != nil) {
 				stmts = append(stmts, s)
 			}
 		}
@@ -218,7 +234,15 @@ func checkOrdered(c *core.Ctx, rule string, specs []orderedSpec) {
 			continue
 		}
 		q := parseOrdered(stmts[0])
-		ok := q.limit == "1" && fmt.Sprint(q.where) == fmt.Sprint(w.where)
+		ok := fmt.Sprint(q.where) == fmt.Sprint(w.where)
+		if w.keys == nil {
+			// plain lookup: no ordering involved
+			got := boundArgs(fn, stmts[0], core.NewSymx())
+			ok = ok && len(q.keys) == 0 && fmt.Sprint(got) == fmt.Sprint(w.args)
+			c.Decide(ok, rule, strings.TrimSuffix(label, "#order")+"#lookup", fn.Pos(), fmt.Sprintf("rows of %s with %v bound to %v", q.table, q.where, got))
+			continue
+		}
+		ok = ok && q.limit == "1"
 		if ok {
 			ok = false
 			for _, ks := range w.keys {
